@@ -71,11 +71,15 @@ pub struct PairCase {
     /// HTTP/2 client: DATA frames of uploads carry this much padding
     #[serde(default)]
     pub h2_padding: Option<u8>,
+    /// the shrinking SETTINGS is sent only once this many body bytes of the first stream arrived
+    /// (so that sozu's send window really goes negative)
+    #[serde(default)]
+    pub shrink_after_bytes: Option<usize>,
 }
 
 impl PairCase {
     pub fn simple(front: Proto, back: Proto, xfers: Vec<Xfer>) -> PairCase {
-        PairCase { front, back, xfers, initial_window: None, max_frame_size: None, header_table_size: None, grants: Grants::Eager, upload_frame: 16384, buffer_size: 16393, shrink_window_to: None, pace_front: None, spread_upload: false, huge_conn_window: false, h1_chunk: None, h2_padding: None }
+        PairCase { front, back, xfers, initial_window: None, max_frame_size: None, header_table_size: None, grants: Grants::Eager, upload_frame: 16384, buffer_size: 16393, shrink_window_to: None, pace_front: None, spread_upload: false, huge_conn_window: false, h1_chunk: None, h2_padding: None, shrink_after_bytes: None }
     }
 }
 
@@ -160,7 +164,10 @@ pub fn run_pair(tag: &str, case: &PairCase, prefix: Vec<u32>, profile: ChoicePro
                 }
             }
             if let Some(w) = case.shrink_window_to {
-                script.push(Step::H2Raw(h2::settings(&[(h2::S_INITIAL_WINDOW_SIZE, w)])));
+                if let Some(n) = case.shrink_after_bytes {
+                    script.push(Step::H2Await(H2Cond::BodyAtLeast(stream_ids[0], n)));
+                }
+                script.push(Step::H2ShrinkWindow(w));
             }
             // window grants: rounds of manual WINDOW_UPDATEs until everything is done
             match &case.grants {
